@@ -301,7 +301,12 @@ class BaseKFACPreconditioner:
                     continue
                 layer.compute_a_inv(damping=self.damping)
                 layer.compute_g_inv(damping=self.damping)
-                if self._assignment.broadcast_inverses():
+                # As in step(), only the gradient workers of the layer are
+                # members of the group the inverses are broadcast in
+                if (
+                    self._assignment.broadcast_inverses()
+                    and self._assignment.is_grad_worker(name)
+                ):
                     layer.broadcast_a_inv(
                         src=self._assignment.inv_worker(name, 'A'),
                         group=self._assignment.grad_worker_group(name),
